@@ -233,6 +233,26 @@ func (m *ExitMonitor) OnWrite(x *Ctx, w *Write) {
 	if w.Key.GVR.Resource == "batchreleases" && w.Verb == "create" {
 		x.Mon["c05.batchReleaseCreated"] = "1"
 	}
+	// a BatchRelease has taken the workload over (only the finaliser of such a BatchRelease lifts the webhook's pause)
+	if w.Actor == "B" && w.Key.GVR.Resource == workloadResource(x.Sc) && w.Key.Name == AppName && w.After != nil && controlledOf(w.After) {
+		x.Mon["c05.takenOver"] = "1"
+	}
+}
+
+// OnTransition remembers in which situation an exit (disable / delete) was requested: while the Rollout's status was
+// reset, or while no BatchRelease controlled the workload.
+func (m *ExitMonitor) OnTransition(x *Ctx, t *Transition) {
+	if t.Actor != "user" || !(strings.HasSuffix(t.Label, ":disable") || strings.HasSuffix(t.Label, ":deleteRollout")) {
+		return
+	}
+	if x.Mon["ctx.statusReset"] != "" || x.Mon["ctx.forgotRelease"] != "" {
+		x.Mon["c05.exitAfterReset"] = "1"
+	}
+	br := &rolloutsv1beta1.BatchRelease{}
+	v := ViewWorkload(x.W, x.Sc)
+	if !x.W.Get(br, x.Sc.ns(), AppName) || br.DeletionTimestamp != nil || v == nil || !v.Controlled {
+		x.Mon["c05.exitWithoutControllingBR"] = "1"
+	}
 }
 
 func (m *ExitMonitor) OnState(x *Ctx, quiescent bool) {
@@ -261,12 +281,18 @@ func (m *ExitMonitor) OnState(x *Ctx, quiescent bool) {
 	x.Count("C05 terminal states judged (" + reason + ")")
 	x.ex.Terminals[reason]++
 	if res := Residue(x.W, sc, m.Base); len(res) > 0 {
-		sig := "C05/restore/" + strings.Split(reason, "+")[0] + "/" + residueClass(res)
-		if x.Mon["c05.batchReleaseCreated"] == "" {
-			sig += "/exit-before-any-batchrelease-was-created"
-		}
-		if x.Mon["ctx.templateChangedWhileFinalising"] != "" {
-			sig += "/template-changed-while-finalising"
+		// The signature names the residue class, except in histories whose root cause is established: there the same
+		// cause shows as many different leftovers, and the history class identifies the finding.
+		sig := "C05/restore/" + strings.Split(reason, "+")[0]
+		switch {
+		case x.Mon["ctx.forgotRelease"] != "" || x.Mon["ctx.statusReset"] != "" || x.Mon["c05.exitAfterReset"] != "":
+			sig += "/residue-after-the-rollout-status-was-reset-mid-release"
+		case x.Mon["c05.takenOver"] == "" || x.Mon["c05.exitWithoutControllingBR"] != "":
+			sig += "/residue-when-no-batchrelease-controls-the-workload"
+		case x.Mon["ctx.templateChangedWhileFinalising"] != "":
+			sig += "/residue-after-template-change-while-finalising"
+		default:
+			sig += "/" + residueClass(res)
 		}
 		x.Violate(sig, "rollout ended ("+reason+") but: "+strings.Join(res, "; "))
 	}
@@ -356,10 +382,10 @@ func (m FinalizerMonitor) OnWrite(x *Ctx, w *Write) {
 			}
 			if len(res) > 0 {
 				sig := "C18/early/rollout-finalizer"
-				if x.Mon["ctx.forgotRelease"] != "" {
-					// the release had been forgotten before the deletion: the workload vanished mid-release and the
-					// Rollout reset its status to Initial without cleaning up
-					sig += "/after-workload-not-found-reset"
+				if x.Mon["ctx.forgotRelease"] != "" || x.Mon["ctx.statusReset"] != "" {
+					// the release had been forgotten before the deletion: the Rollout had cleared its sub-status
+					// mid-release without cleaning up (workload vanished, or reset for a superseding / reverted release)
+					sig += "/after-the-rollout-status-was-reset-mid-release"
 				}
 				x.Violate(sig, "Rollout finalizer removed while cleanup is incomplete: "+strings.Join(res, "; "))
 			}
